@@ -2,11 +2,11 @@ module github.com/emersion/go-imap/v2/verifharness
 
 go 1.18
 
-require github.com/emersion/go-imap/v2 v2.0.0
-
 require (
-	github.com/emersion/go-sasl v0.0.0-20231106173351-e73c9f7bad43 // indirect
-	golang.org/x/text v0.14.0 // indirect
+	github.com/emersion/go-imap/v2 v2.0.0
+	golang.org/x/text v0.14.0
 )
+
+require github.com/emersion/go-sasl v0.0.0-20231106173351-e73c9f7bad43 // indirect
 
 replace github.com/emersion/go-imap/v2 => /repo
